@@ -40,7 +40,7 @@ def decomp_case(draw):
     if isinstance(sub, float) and int(size * sub) < max(n_layers, sv.m) + 1:
         sub = None           # the subsample must still hold more samples than layers/receptors (NMF initialisation precondition)
     return dict(system=sysd, B=B.tolist(), n_layers=n_layers, mask=mask, equal_l1=draw(st.booleans()), subsample=sub, lbp=lbp, ubp=ubp,
-                seed=draw(st.integers(0, 2 ** 31 - 1)), max_iter=draw(st.integers(3, 12)), entry=draw(st.sampled_from(["function", "estimator"])),
+                seed=draw(gens.seed_value()), max_iter=draw(st.integers(3, 12)), entry=draw(st.sampled_from(["function", "estimator"])),
                 W=draw(st.one_of(st.none(), gens.array((sv.m,), 0.5, 2.0, styles=("raw",)))))
 
 
